@@ -32,7 +32,8 @@ MANIFEST = {
             'injected event (logical steps, no wall clock).  Raptor-bound '
             'tasks and named-environment tasks are part of the streams; '
             'priority is decided on scripted two-task scenarios.'
-            "  Second session: a quarter of the histories carry raptor tasks (named master, any master '*', tasks returning with raptor_seen) with the master's queue registering/unregistering at seeded points: partition rule incl. backlog/queue, no local placement of a raptor task, backlog flushed once the queue is registered.",
+            "  Second session: a quarter of the histories carry raptor tasks (named master, any master '*', tasks returning with raptor_seen) with the master's queue registering/unregistering at seeded points: partition rule incl. backlog/queue, no local placement of a raptor task, backlog flushed once the queue is registered."
+            '  Third session: a threaded wait-pool workload - a running task ends (the loop re-tests the wait pool) while cancel requests for waiting tasks arrive on the control thread, LINE perturbation of _schedule_waitpool/control_cb: every waiting task ends up in exactly one place (placed once, canceled once, or still waiting).  The raptor registration race additionally registers the master exactly when the loop is about to enter its raptor section (gate on the raptor lock).',
     'note': 'unbounded "eventually" restated as K=4 iterations; fit oracle '
             'only for tag-free, whole-GPU requests in scattered mode (other '
             'requests take part in the partition and at-most-once oracles '
@@ -272,10 +273,18 @@ def raptor_race(ctx, res, rng, idx):
                 env.publish(rpc.CONTROL_PUBSUB, reg_msg)
             time.sleep(crng.choice([0, 0.0005, 0.002, 0.004]))
 
-        if reg_when == 'at-lock' and not gate_st['fired']:
-            # the loop never entered its raptor section after the chosen bulk
-            gate_st['fired'] = True
-            env.publish(rpc.CONTROL_PUBSUB, reg_msg)
+        if reg_when == 'at-lock':
+            # the loop may lag behind the submissions: let it get to its
+            # raptor section; if it never enters it after the chosen bulk,
+            # register now
+            t_end = time.time() + 5
+            while not gate_st['fired'] and time.time() < t_end and \
+                    not (pair.child._queue_sched.empty() and
+                         time.time() > t_end - 4.8):
+                time.sleep(0.001)
+            if not gate_st['fired']:
+                gate_st['fired'] = True
+                env.publish(rpc.CONTROL_PUBSUB, reg_msg)
 
         # quiescence: the loop is idle when its input queue stays empty and
         # the counts below do not move any more
@@ -340,6 +349,151 @@ def raptor_race(ctx, res, rng, idx):
         shutil.rmtree(wd, ignore_errors=True)
 
 
+# ------------------------------------------------------------------------------
+# (d) cancel requests for waiting tasks arrive on the control thread while the
+#     loop re-tests the wait pool (a running task just ended): every task ends
+#     up in exactly one place - placed once, or canceled once
+#
+def waitpool_cancel_race(ctx, res, rng, idx):
+    import time
+    import threading as mt
+    from ..agentkit import AgentEnv, SchedulerPair
+    from ..schedsim import task_dict
+    from ..popsim   import Perturb
+    import radical.pilot.agent.scheduler.base as m_sb
+
+    wd = os.path.join(ctx.workdir or os.getcwd(), 'wrace')
+    os.makedirs(wd, exist_ok=True)
+    cores = rng.choice([2, 3, 4])
+    lay  = {'nodes': 1, 'cores_per_node': cores, 'gpus_per_node': 0, 'lfs': 0,
+            'mem': 0, 'blocked_cores': [], 'blocked_gpus': [],
+            'agent_nodes': 0}
+    case = {'kind': 'waitpool-cancel-race', 'seed': rng.randint(0, 2 ** 30),
+            'cores': cores, 'n_wait': rng.randint(2, 6)}
+    env = pair = per = None
+    try:
+        env  = AgentEnv(wd, lay, seed=case['seed'], mode='threaded')
+        per  = Perturb(case['seed'], 0.3,
+                       funcs=[m_sb.AgentSchedulingComponent._schedule_waitpool,
+                              m_sb.AgentSchedulingComponent.control_cb])
+        crng = __import__('random').Random(case['seed'])
+        pair = SchedulerPair(env, gated=False)
+        pair.start()
+
+        def mk(uid):
+            return task_dict({'uid': uid, 'ranks': 1, 'cores_per_rank': 1,
+                              'gpus_per_rank': 0., 'lfs_per_rank': 0,
+                              'mem_per_rank': 0, 'ranks_per_node': None,
+                              'priority': 0, 'tags': {}, 'named_env': '',
+                              'app_slots': False})
+
+        def outcomes():
+            placed, canceled = dict(), dict()
+            for ev in env.net.events('put'):
+                if ev['url'].endswith('/' + rpc.AGENT_EXECUTING_QUEUE):
+                    for t in ev['payload']:
+                        placed.setdefault(t['uid'], list()).append(t)
+            for ev in env.net.events('pub'):
+                if ev['url'].endswith('/' + rpc.STATE_PUBSUB):
+                    for t in ru.as_list((ev['payload'] or {}).get('arg')):
+                        if isinstance(t, dict) and \
+                                t.get('state') == rps.CANCELED:
+                            canceled[t['uid']] = canceled.get(t['uid'], 0) + 1
+            return placed, canceled
+
+        def settle(pred, limit=20.0):
+            t0 = time.time()
+            while time.time() - t0 < limit:
+                if pred():
+                    return True
+                time.sleep(0.002)
+            return False
+
+        running = ['run.%d' % i for i in range(cores)]
+        waiting = ['wait.%d' % i for i in range(case['n_wait'])]
+        env.put(rpc.AGENT_SCHEDULING_QUEUE, [mk(u) for u in running])
+        pair.intake()
+        if not settle(lambda: len(outcomes()[0]) == cores):
+            res.inconc('wait pool race: the pilot did not fill in 20 s')
+            return
+        env.put(rpc.AGENT_SCHEDULING_QUEUE, [mk(u) for u in waiting])
+        pair.intake()
+        if not settle(lambda: sum(len(p) for p in
+                                  pair.child._waitpool.values()) ==
+                              len(waiting)):
+            res.inconc('wait pool race: tasks did not reach the wait pool')
+            return
+
+        # one running task ends -> the loop re-tests the wait pool; the
+        # cancel requests for waiting tasks arrive around that moment
+        victims = crng.sample(waiting, crng.randint(1, len(waiting)))
+        placed0 = outcomes()[0]
+        for k, u in enumerate(running[:crng.randint(1, cores)]):
+            env.publish(rpc.AGENT_UNSCHEDULE_PUBSUB, placed0[u][0])
+            time.sleep(crng.choice([0, 0.0002, 0.0005, 0.001, 0.003]))
+            if k < len(victims):
+                env.publish(rpc.CONTROL_PUBSUB, {'cmd': 'cancel_tasks',
+                            'arg': {'uids': [victims[k]]}})
+            time.sleep(crng.choice([0, 0.001, 0.004]))
+        for u in victims[cores:]:
+            env.publish(rpc.CONTROL_PUBSUB, {'cmd': 'cancel_tasks',
+                                             'arg': {'uids': [u]}})
+
+        # quiescence: nothing moves any more
+        last, stable, t0 = None, 0, time.time()
+        while time.time() - t0 < 30:
+            pl, ca = outcomes()
+            snap = (sorted((u, len(v)) for u, v in pl.items()),
+                    sorted(ca.items()), pair.child._queue_sched.empty())
+            if snap == last and snap[2]:
+                stable += 1
+                if stable >= 15:
+                    break
+            else:
+                stable, last = 0, snap
+            time.sleep(0.01)
+        else:
+            res.inconc('wait pool race: history did not go quiet in 30 s')
+            return
+        res.count('waitpool_race_histories')
+        pl, ca = outcomes()
+        pool = {u for p in pair.child._waitpool.values() for u in p}
+        ctx_ = {'case': case, 'victims': victims,
+                'placed': {u: len(v) for u, v in pl.items()},
+                'canceled': ca, 'pool': sorted(pool)}
+        if pair.child_error:
+            res.violation('waitpool-race/loop-died', repr(pair.child_error),
+                          ctx_)
+            return
+        for e in env.net.errors:
+            res.violation('waitpool-race/callback-raised', e[2], ctx_)
+            return
+        for u in waiting:
+            res.count('waitpool_race_tasks_checked')
+            where = (['placed'] * len(pl.get(u, [])) +
+                     ['canceled'] * ca.get(u, 0) +
+                     (['waitpool'] if u in pool else []))
+            if len(where) > 1:
+                res.violation('task-in-two-places', '%s is in %s' % (u, where),
+                              ctx_)
+                return
+            if not where:
+                res.violation('task-lost', '%s is nowhere' % u, ctx_)
+                return
+            if where == ['canceled'] and u not in victims:
+                res.violation('waiting-task-canceled-unrequested', u, ctx_)
+                return
+    finally:
+        if per:
+            per.stop()
+        if pair:
+            pair.stop()
+        if env:
+            env.close()
+        os.chdir(ctx.workdir or '/')
+        shutil.rmtree(wd, ignore_errors=True)
+
+
 def run(ctx):
     res = Result()
     run_histories(ctx, res, ctx.n(2400, 24000), lambda r: [Progress(r)],
@@ -355,7 +509,13 @@ def run(ctx):
         res.digests.add(digest(case))
         if len(res.violations) > 40:
             break
-    # last: leaves threads of the scheduler pair behind
+    # last: leave threads of the scheduler pair behind
+    rng = ctx.rng('wrace')
+    for i in range(ctx.n(240, 4800)):
+        waitpool_cancel_race(ctx, res, rng, i)
+        res.evaluations += 1
+        if len(res.violations) > 30:
+            break
     rng = ctx.rng('rrace')
     for i in range(ctx.n(640, 9600)):
         raptor_race(ctx, res, rng, i)
